@@ -744,13 +744,20 @@ def check_segment_oracle(ctx, rep, rule='O-segment-oracle'):
                 continue
             role = {'se1_l': 'OLD', 'se2_l': 'NEW'} if before else {'se2_l': 'OLD', 'se1_l': 'NEW'}
             crow = []
+            missing_other = False
             for (v, cc) in conds:
                 x = strip_upd(v)
                 if x[0] == 'discr':
                     from rules.tables import weak_link
                     if weak_link(strip_upd(x[1]), {}):
-                        continue      # presence of the right events (asserted before)
+                        # presence of the right events: the order is defined for segments that have both ends (debug builds
+                        # assert it; in release builds the defensive path for a missing end is outside the table)
+                        if cc != ('eq', 1):
+                            missing_other = True
+                        continue
                 crow.append((_seg_atom(v, role), cc))
+            if missing_other:
+                continue
             rows[before].append((crow, _seg_atom(r[2][0], role)))
     except ValueError as e:
         rep.ob(rule, 'tabulable', False, 'cannot model compare_segments: %s' % e, loc=b.loc(b.j['line_lo']), reason='cannot-tabulate')
